@@ -55,7 +55,7 @@ def shards(tier):
 
 def floors(tier):
     f = {"positive": 20000, "negative": 10000, "through_validator": 1000, "hostile_first": 300,
-         "hostile_middle": 300, "hostile_last": 300, "distinct_nontrivial": 10000}
+         "hostile_middle": 300, "hostile_last": 300, "distinct_nontrivial": 10000, "short_lived_resolutions": 5000}
     for k in ("missing_key", "index_eq_len", "index_gt_len", "non_index_token", "token_on_scalar", "token_on_string",
               "disguised_in_range_index"):
         f["neg:" + k] = 500
@@ -99,8 +99,53 @@ def encodings(rng, toks):
     yield U.fragment_for(toks, extra=extra)
 
 
+_SHARED = []
+
+
 def resolver():
-    return RefResolver("", {})
+    """ONE resolver object for all documents of this worker (documents come and go, the resolver stays)."""
+    if not _SHARED:
+        _SHARED.append(RefResolver("", {}))
+    return _SHARED[0]
+
+
+def short_lived_documents(ctx, n):
+    """Same fragments, same shapes, different documents in quick succession on one resolver: each answer must come
+    from the document handed in (a dropped document's storage is typically reused by the next one)."""
+    R = resolver()
+    for k in range(n):
+        doc = {"a": {"v": "value-%d" % k, "": [k, {"k": k}]}, "b": ["b-%d" % k]}
+        # (even series: pointers to scalars only - nothing a cache could hold keeps the document itself alive, so its
+        #  storage really is reused; odd series: the whole document and a container)
+        want = [("/a/v", doc["a"]["v"]), ("/a//1/k", k), ("/b/0", doc["b"][0])]
+        if k % 10 == 9:
+            want += [("", doc), ("/a", doc["a"])]
+        for frag, target in want:
+            ctx.count("positive")
+            ctx.count("short_lived_resolutions")
+            ctx.case(["short-lived", k, frag])
+            try:
+                got = R.resolve_fragment(doc, frag)
+            except Exception as e:
+                ctx.violation("positive-raised", {"document": doc, "fragment": frag}, "%s" % type(e).__name__)
+                continue
+            if got is not target:
+                ctx.violation("positive-wrong-value", {"document": doc, "fragment": frag},
+                              "returned %r instead of the addressed %r (document %d of a series on one resolver)" % (got, target, k))
+        if k % 2:
+            # the key disappears in every other document: must fail cleanly there
+            doc2 = {"b": ["only-b-%d" % k]}
+            ctx.count("negative")
+            ctx.count("short_lived_resolutions")
+            try:
+                got = R.resolve_fragment(doc2, "/a/v")
+                ctx.violation("negative-returned-value", {"document": doc2, "fragment": "/a/v"}, "returned %r for a pointer that addresses nothing" % (got,))
+            except RefResolutionError:
+                pass
+            except Exception as e:
+                ctx.violation("negative-other-exception", {"document": doc2, "fragment": "/a/v"}, type(e).__name__)
+            del doc2
+        del doc, want
 
 
 def positive(ctx, rng, doc):
@@ -228,6 +273,7 @@ def run(ctx):
             positive(ctx, rr, doc)
             negative(ctx, rr, doc)
             through_validator(ctx, rr, doc)
+    short_lived_documents(ctx, ctx.scale(400, 5000))
     rng = ctx.rng
     for i in range(ctx.scale(1500, 25000)):
         doc = gen_doc(rng, rng.choice([2, 3, 4]))
